@@ -194,6 +194,24 @@ def _ulam_grid(tier):
     for k in range(0, 64 * 64, 131 if tier == 'quick' else 17):
         out.append({'dim': 3, 'states': [2, 2, 2], 'table': [list(pairs3[k % 64]), list(pairs3[(k // 64) % 64])]})
     out.append({'dim': 3, 'states': [2, 3, 2], 'table': [[1, 3, 2, 2, 1, 1], [1, 3, 2, 2, 1, 1], [2, 2, 1, 1, 3, 2]]})
+    # non-square / non-cubic grids in every order of the sizes (a size used for the wrong axis shows only there); tables from a fixed LCG,
+    # always including the corner boxes (largest index on every axis as source and as target)
+    def lcg_table(states, nrows, seed):
+        x = seed
+        rows = [[n for n in states] + [1] * len(states), [1] * len(states) + [n for n in states], [n for n in states] * 2]
+        while len(rows) < nrows:
+            r = []
+            for n in list(states) * 2:
+                x = (1103515245 * x + 12345) % (2 ** 31)
+                r.append(1 + (x >> 8) % n)
+            rows.append(r)
+        return rows
+    sizes3 = [(2, 3, 4), (1, 2, 3)] if tier == 'quick' else [(2, 3, 4), (1, 2, 3), (2, 2, 3), (3, 3, 2)]
+    for sz in sizes3:
+        for perm in sorted(set(itertools.permutations(sz))):
+            out.append({'dim': 3, 'states': list(perm), 'table': lcg_table(perm, 7, sum(perm) * 7 + perm[0])})
+    for sz in [(2, 3), (3, 2), (1, 3), (4, 2), (2, 4)]:
+        out.append({'dim': 2, 'states': list(sz), 'table': lcg_table(sz, 6, sz[0] * 5 + sz[1])})
     return out
 
 
